@@ -1,7 +1,12 @@
 // one module per property (kept in a separate file so build.rs can enumerate them)
 mod ops;
+mod rp;
+mod serde;
+mod serde_canon;
 mod c02;
+mod opm;
 mod c09;
+mod c10;
 mod c12;
 mod c14;
 mod c21;
